@@ -126,3 +126,17 @@ def st_rotation_spd(D):
         st.lists(st.floats(0.05, 2.0), min_size=D, max_size=D),
         st.lists(st.floats(0, TWO_PI), min_size=nang, max_size=nang),
     ).map(build)
+
+
+DELICATE_N = [49, 98, 103, 107, 161, 187, 196, 197, 206, 214, 237, 239, 249, 253]  # N * fl(1/N) != 1 in double precision
+
+
+def st_any_n(D, tier, n_min=3, n_max=None):
+    """grid sizes for the 'any N' strata: uniform over a wide range, plus sizes that are delicate for floating point
+    (N*fl(1/N) != 1), powers of two and multiples of six (dealiasing cut-off on a bin edge)"""
+    hi = n_max or ({1: 300, 2: 40, 3: 14} if tier == "quick" else {1: 600, 2: 110, 3: 24})[D]
+    special = [n for n in DELICATE_N + [6, 12, 18, 24, 30, 36, 48, 8, 16, 32, 64, 128, 256, 27, 81, 243] if n_min <= n <= hi]
+    parts = [st.integers(n_min, hi), st.integers(n_min, hi)]
+    if special:
+        parts.append(st.sampled_from(special))
+    return st.one_of(*parts)
